@@ -310,15 +310,15 @@ def e2e_family():
     LY = lambda l: {"k": "layer", "l": l}
     fam = []
 
-    def sw(name, cases):
-        """cases: [(text cond, [expr records], brk)]; actions are the keys 1..n"""
+    def sw(name, cases, keys="a b (layer-while-held l1)", top="", lk=True):
+        """cases: [(text cond, [expr records], brk)]; actions are the keys 1..n; keys: the actions of a b c"""
         text = "(switch " + " ".join("(%s) %s %s" % (t, AC_NAMES[i], "break" if b else "fallthrough")
                                      for i, (t, _, b) in enumerate(cases)) + ")"
-        kbd = "(defsrc a b c d)\n(deflayer l0 a b (layer-while-held l1) %s)\n(deflayer l1 _ _ _ _)\n" % text
+        kbd = "(defsrc a b c d)\n%s(deflayer l0 %s %s)\n(deflayer l1 _ _ _ _)\n" % (top, keys, text)
         params = {"kind": "switch", "sk": c("d"), "win": 14, "ageoff": 0,
                   "cases": [{"cond": e, "ac": c(AC_NAMES[i]), "brk": b} for i, (_, e, b) in enumerate(cases)],
                   "trig": [], "left": 0, "right": 0, "acs": [c(AC_NAMES[i]) for i in range(len(cases))],
-                  "lk": c("c"), "ll": 1}
+                  "lk": c("c") if lk else 0, "ll": 1}
         fam.append((name, kbd, params, [c("a"), c("b"), c("c")]))
 
     sw("keys", [("a", [K("a")], False),
@@ -341,6 +341,18 @@ def e2e_family():
     sw("notnested", [("(and (not (or a b)) (layer l1))", [OP("and", OP("not", OP("or", K("a"), K("b"))), LY(1))], True),
                      ("", [], True)])
 
+    # `input real K` is about the physical key K being held, whatever K is bound to: keys whose action leaves
+    # only a custom state (mouse button, unicode, on-press / on-release virtual-key action, mouse wheel,
+    # arbitrary-code), a repeating macro, a chord participant, a layer key
+    in_cases = [("(input real a)", [IN("a")], False), ("(input real b)", [IN("b")], False), ("(input real c)", [IN("c")], False),
+                ("(not (input real a))", [OP("not", IN("a"))], False),
+                ("(and (input real b) (not (input real c)))", [OP("and", IN("b"), OP("not", IN("c")))], False),
+                ("", [], True)]
+    sw("in_custom1", in_cases, keys="mlft (unicode r) (on-press-fakekey v tap)", top="(defvirtualkeys v XX)\n", lk=False)
+    sw("in_custom2", in_cases, keys="(mwheel-up 50 120) (arbitrary-code 700) (on-release-fakekey v tap)",
+       top="(defvirtualkeys v XX)\n", lk=False)
+    sw("in_states", in_cases + [], keys="(macro-repeat x 5) (chord g p) (layer-while-held l1)",
+       top="(defchords g 10 (p) y)\n")
     # regression for the repaired finding hist-age-queued-action (b96326a): the first press fires 2 and 3 from the
     # action queue; before the repair the history did not age on those ticks, so 2's press (then the 2nd most
     # recent key press) looked one tick younger than it was ever after
@@ -370,7 +382,26 @@ TIMING_FAMS = [
                 (1, "gt", 2304, False), (1, "gt", 2431, False), (1, "lt", 65535, False), (1, "gt", 65535, True)]),
     ("tlongB", [(1, "lt", 500, False), (1, "gt", 60000, False), (2, "lt", 500, False), (2, "gt", 60000, False),
                 (3, "gt", 32767, False), (3, "lt", 40000, False), (8, "lt", 2304, False), (8, "gt", 1000, True)]),
+    # the largest threshold of the configuration sits in an `lt` test (the processing loop may go to sleep only
+    # when no key-timing test can change any more; these families are decisive under the blocking stepper)
+    ("tblockA", [(1, "lt", 300, False), (1, "gt", 100, False), (2, "lt", 1000, False), (2, "gt", 40, True)]),
+    ("tblockB", [(1, "lt", 255, False), (1, "lt", 2000, False), (3, "lt", 5000, True)]),
 ]
+
+
+def skips_as_time(path):
+    """Blocking stepper (harness opts.mode = "block": no tick after a may-block decision until the next input, as the
+    processing loop does): the ticks of the script that were not executed are recorded as {"e":"skip","n":k}.  The
+    statement speaks about the current state in real time, not in ticks executed, so for P_C10 they are silent time."""
+    lines = open(path).read().split("\n")
+    n = 0
+    for i, l in enumerate(lines):
+        if l.startswith('{"e":"skip"') or '"e":"skip"' in l[:40]:
+            k = json.loads(l)["n"]
+            lines[i] = json.dumps({"e": "t", "n": k, "out": [], "idle": True, "cb": True})
+            n += k
+    open(path, "w").write("\n".join(lines))
+    return n
 
 
 def timing_family():
@@ -577,6 +608,20 @@ def replay(r, path, wd):
     """./check replay for kind switch-tv: the recorded configuration text goes through the real parser and
     the real Switch::actions again, in the recorded environments; exit 1 if the firing actions still
     differ from the documented ones recorded in the file (computed by TLC from Switch.tla Denote)."""
+    if r.get("sub") == "trace-block":
+        job = {"cfg": r["cfg"], "params": r["params"], "tag": "replay", "scripts": [r["script"]], "opts": r["opts"]}
+        trace = concat_traces(run_jobs([job], wd, "replay"), os.path.join(wd, "replay.trace.ndjson"))
+        skips_as_time(trace)
+        for i, line in enumerate(open(trace)):
+            print("%4d %s" % (i + 1, line.rstrip()[:300]))
+        n, errs = validate_trace(r["monitor"], trace, wd)
+        for e in errs:
+            print("REJECTED at line %s: %s" % (e["line"], e["err"]))
+        if errs:
+            print("VIOLATION property=%s replay=%s" % (r["property"], path))
+            return 1
+        print("accepted by %s (blocking stepper; skipped ticks count as time)" % r["monitor"])
+        return 0
     job = r["job"]
     print(job["cfg"])
     tv = run_switch_tv([job], wd, "replay", shards=1)
@@ -865,6 +910,12 @@ def run(tier, seed):
     for name, kbd, params, others in fam:
         n = (6 if quick else 40)
         scripts = [e2e_script(rng, others, params["sk"], params["win"], 4 if quick else 8) for _ in range(n)]
+        if name.startswith("in_"):     # + every subset of a b c held when the switch key is pressed
+            for sub in range(8):
+                ks = [k for i, k in enumerate(others) if sub >> i & 1]
+                scripts.append(sum(([["d", k], ["t", 20]] for k in ks), []) +
+                               [["d", sw_key], ["t", params["win"] + 3], ["u", sw_key], ["t", 5]] +
+                               sum(([["u", k], ["t", 5]] for k in ks), []))
         if name == "qlag":     # age of 2's press at the second evaluation = G + 16 (as the OS saw it): 49..53
             scripts = [[["d", sw_key], ["t", 17], ["u", sw_key], ["t", G], ["d", sw_key], ["t", 17], ["u", sw_key], ["t", 60]]
                        for G in (33, 34, 35, 36, 37)]
@@ -886,6 +937,8 @@ def run(tier, seed):
         scripts, nr = timing_scripts(cases, ages_of, ages_global, params["sk"], params["win"])
         n_long_rounds += nr
         e2e_jobs.append({"cfg": kbd, "params": params, "tag": name, "scripts": scripts})
+        # the same rounds through the blocking stepper: the switch outcomes must be the written ones there too
+        e2e_jobs.append({"cfg": kbd, "params": params, "tag": name + "@block", "scripts": scripts, "opts": {"mode": "block"}})
     # composite action terms: the term's key held through the window in the four trigger environments
     term_e2e = [(iid, tm) for iid, tm in sorted(terms.items()) if tm["e2e"] and not tm["depth2"]]
     deep = [(iid, tm) for iid, tm in sorted(terms.items()) if tm["e2e"] and tm["depth2"]]
@@ -897,6 +950,7 @@ def run(tier, seed):
     e2e_jobs = shard_local_index(e2e_jobs)
     outs = run_jobs(e2e_jobs, wd, "c10_e2e")
     trace = concat_traces(outs, os.path.join(wd, "c10_e2e.trace.ndjson"))
+    n_skipped = skips_as_time(trace)
     nlines, errs = validate_trace("P_C10", trace, wd)
     n_press = sum(1 for j in e2e_jobs for s in j["scripts"] for st in s if st[0] == "d" and st[1] == j["params"]["sk"])
     e2e_known = 0
@@ -907,9 +961,11 @@ def run(tier, seed):
             # the known finding end to end: the first case is skipped, the default case fires
             e2e_known += 1
             continue
-        violations.append({"id": "e2e:" + j["tag"], "err": e["err"],
-                           "trace_replay": {"property": PID, "kind": "trace", "cfg": j["cfg"], "params": j["params"],
-                                            "script": s, "err": e["err"], "monitor": "P_C10"}})
+        tr = {"property": PID, "kind": "trace", "cfg": j["cfg"], "params": j["params"],
+              "script": s, "err": e["err"], "monitor": "P_C10"}
+        if j.get("opts"):     # blocking stepper: replayed by c10.replay (skipped ticks count as time)
+            tr.update(kind="switch-tv", sub="trace-block", opts=j["opts"])
+        violations.append({"id": "e2e:" + j["tag"], "err": e["err"], "trace_replay": tr})
 
     # ---- 5. verdict and evidence ---------------------------------------------------------------------
     n_known = explained + e2e_known
@@ -970,7 +1026,8 @@ def run(tier, seed):
         "tlc_runs": [{k: t[k] for k in ("name", "mode", "variant", "states", "lines", "wall_s")} for t in tl],
         "proposed_fix_model": fixed_run,
         "e2e": {"configs": len(fam) + len(tfam) + len(term_e2e), "scripts": len(e2e_jobs), "switch_or_fork_presses_judged": n_press,
-                "key_timing_long_gap_rounds": n_long_rounds,
+                "key_timing_long_gap_rounds": n_long_rounds, "key_timing_families_also_through_blocking_stepper": len(tfam),
+                "ticks_slept_by_blocking_stepper": n_skipped,
                 "key_timing_long_gap_ages": {"per_threshold": {str(k): v for k, v in sorted(ages_of.items())}, "global": ages_global},
                 "trace_lines": nlines, "rejected": len(errs), "rejected_known": e2e_known},
         "traces_validated_against_impl": len(e2e_jobs),
@@ -998,7 +1055,9 @@ def run(tier, seed):
                                 "switch key); age offset 1 tick between the monitor's clock and the evaluation" % 14,
                                 "environment passed to Switch::actions is arbitrary (not restricted to states reachable "
                                 "through the layout)",
-                                "ages saturate at 65535 ticks (documented); the stepper ticks every millisecond of a silent gap",
+                                "ages saturate at 65535 ticks (documented); the ticking stepper ticks every millisecond of a silent "
+                                "gap, the blocking stepper (harness mode block) stops after a may-block decision until the next "
+                                "input and the monitor counts the slept ticks as time",
                                 "action terms: the order between the actions of a switch and later actions of the same press "
                                 "(fallthrough / multi) is not fixed by the statement (such terms are compared as trees only)"])
     return rc
